@@ -1,6 +1,110 @@
 import PoolModel.C11
+import PoolProofs.C11Lemmas
+/-! # C11 — reserved value covers the worst-case debit; orders never over-commit an account
+
+Headline theorems about the executable model `PoolModel/C11.lean` (+ `PoolModel/Float64.lean`).
+`Admissible o ver priceOk bs` (defined in `C11Lemmas`) is the property's quantifier: every fill ≥ the minimum match,
+every clearing price on the order's side of its rate, every batch fee rate ≤ the order's maximum, the fills sum to
+at most the unfilled units; batches group the fills arbitrarily (one fill per batch is the special case). -/
 namespace Pool.C11
-theorem C11_archived_zero (o : Order) (f : Nat → Int) (ver : Nat) (h : archived o.state = true) :
-    reservedValue o f ver = .ok 0 := by
-  simp [reservedValue, h]
+open Pool.Float64 Pool.Gen.Reserve
+
+/-- per-order worst-case premium `c·(U + N·σ) ≤ 2^48` as a rational inequality -/
+theorem premiumGuard_q (o : Order) (h : premiumGuard o = true) :
+    cRate o.fixedRate o.leaseDuration *
+      ((toSatoshis o.unitsUnfulfilled : ℚ) + (maxMatches o : ℚ) * (o.selfChanBalance : ℚ)) ≤ 2 ^ 48 := by
+  unfold premiumGuard at h
+  have h' := of_decide_eq_true h
+  have hq : (((toSatoshis o.unitsUnfulfilled + maxMatches o * o.selfChanBalance) * o.fixedRate * o.leaseDuration : ℕ) : ℚ)
+      ≤ ((2 ^ 48 * feeRateTotalParts : ℕ) : ℚ) := by exact_mod_cast h'
+  have hK : (0 : ℚ) < (feeRateTotalParts : ℚ) := by exact_mod_cast feeRateTotalParts_pos
+  unfold cRate
+  rw [div_mul_eq_mul_div, div_le_iff₀ hK]
+  push_cast at hq ⊢
+  nlinarith
+
+theorem maxMatches_eq (o : Order) (hm : 0 < o.minUnitsMatch) :
+    toSatoshis o.unitsUnfulfilled / toSatoshis o.minUnitsMatch = maxMatches o := by
+  unfold toSatoshis maxMatches
+  exact Nat.mul_div_mul_right _ _ baseSupplyUnit_pos
+
+/-- **Bids.** For every active bid with a non-zero minimum match, a maximum fee rate of at least the fee floor
+(what `validateOrder` admits) and inside the premium guard, and for every admissible sequence of batches
+(clearing prices ≤ the bid's rate): `ReservedValue` does not panic and the total the verifier's tally debits is
+at most the reserved value plus two satoshis per match. -/
+theorem C11_bid_reserve_covers (fs : FeeSchedule) (o : Order) (ver : Nat) (bs : List BatchFills)
+    (hbid : o.isBid = true) (hact : archived o.state = false) (hmin : 0 < o.minUnitsMatch)
+    (hguard : premiumGuard o = true) (hfloor : feePerKwFloor ≤ o.maxBatchFeeRate)
+    (hadm : Admissible o ver (· ≤ o.fixedRate) bs) :
+    ∃ R : Int, orderReservedValue fs o ver = .ok R ∧ totalDebit fs o bs ≤ R + 2 * (totalFills bs : Int) := by
+  obtain ⟨R, hR, hR0, hex, hrem⟩ := reservedValue_spec o (bidPerMatch fs o) ver hact hmin
+  refine ⟨R, by unfold orderReservedValue; simp [hbid, hR], ?_⟩
+  rw [maxMatches_eq o hmin] at hex hrem
+  -- k ≤ N
+  have hk1 := total_units_ge o.minUnitsMatch bs (fun b hb f hf => (hadm.fills b hb f hf).1)
+  have hkU : totalFills bs * o.minUnitsMatch ≤ o.unitsUnfulfilled := le_trans hk1 hadm.total
+  have hkN : totalFills bs ≤ maxMatches o := by
+    unfold maxMatches; exact (Nat.le_div_iff_mul_le hmin).2 hkU
+  by_cases hN0 : maxMatches o = 0
+  · have hk0 : totalFills bs = 0 := by omega
+    have := totalFills_zero bs (fun b hb => (hadm.nonempty b hb).1) hk0
+    subst this
+    simp [totalDebit, totalFills, hR0]
+  have hN1 : 1 ≤ maxMatches o := Nat.one_le_iff_ne_zero.2 hN0
+  -- upper bound of the debit
+  have hub := bid_batches_upper fs o ver hbid hfloor bs (fun b hb f hf => (hadm.fills b hb f hf).2)
+    hadm.feeRate hadm.version hadm.nonempty
+  -- lower bound of the reserve
+  set c := cRate o.fixedRate o.leaseDuration with hc
+  set U := toSatoshis o.unitsUnfulfilled with hU
+  set m := toSatoshis o.minUnitsMatch with hm
+  set fee1 := estimateTraderFee 1 o.maxBatchFeeRate ver with hfee1
+  have hdm := Nat.div_add_mod U m
+  rw [maxMatches_eq o hmin] at hdm
+  have hlb := reserved_lower_generic (maxMatches o) U m (U % m) (c * (1 - eps) + eRate fs)
+    ((c * (1 - eps) + eRate fs) * (sigma o : ℚ) - 2 + o.selfChanBalance + fs.baseFee + fee1)
+    ((fee1 : ℚ) + ((-(bidPerMatch fs o m) : Int) : ℚ)) ((fee1 : ℚ) + ((-(bidPerMatch fs o (m + U % m)) : Int) : ℚ)) (R : ℚ)
+    hN1 hdm.symm
+    (by have := bid_pm_lower fs o m; push_cast at this ⊢; linarith)
+    (by have := bid_pm_lower fs o (m + U % m); push_cast at this ⊢; linarith)
+    (fun h0 => by have := hex h0; have : (((maxMatches o : Int) * ((fee1 : Int) - bidPerMatch fs o m) : Int) : ℚ) ≤ (R : ℚ) := by exact_mod_cast this
+                  push_cast at this ⊢; linarith)
+    (fun h0 => by have := hrem h0
+                  have : ((((maxMatches o : Int) - 1) * ((fee1 : Int) - bidPerMatch fs o m) + ((fee1 : Int) - bidPerMatch fs o (m + U % m)) : Int) : ℚ) ≤ (R : ℚ) := by exact_mod_cast this
+                  push_cast at this ⊢; linarith)
+  -- the guards
+  have hG : (2 : ℚ) ≤ (o.selfChanBalance : ℚ) + fs.baseFee + fee1 := by
+    have h1 := fee1_floor_ge ver
+    have h2 := estimateTraderFee_mono_rate 1 ver hfloor
+    have : (2 : ℚ) ≤ (fee1 : ℚ) := by exact_mod_cast le_trans h1 h2
+    have : (0 : ℚ) ≤ (o.selfChanBalance : ℚ) := by positivity
+    have : (0 : ℚ) ≤ (fs.baseFee : ℚ) := by positivity
+    linarith
+  have hpg := premiumGuard_q o hguard
+  have hsig : (sigma o : ℚ) ≤ (o.selfChanBalance : ℚ) := by exact_mod_cast sigma_le o
+  have hc0 := cRate_nonneg o.fixedRate o.leaseDuration
+  have hNq0 : (0 : ℚ) ≤ (maxMatches o : ℚ) := by positivity
+  have hcY : c * ((U : ℚ) + (maxMatches o : ℚ) * (sigma o : ℚ)) ≤ 2 ^ 48 := by
+    have : (U : ℚ) + (maxMatches o : ℚ) * (sigma o : ℚ) ≤ (U : ℚ) + (maxMatches o : ℚ) * (o.selfChanBalance : ℚ) := by
+      have := mul_le_mul_of_nonneg_left hsig hNq0; linarith
+    exact le_trans (mul_le_mul_of_nonneg_left this hc0) hpg
+  have hFU : (toSatoshis (totalUnits bs) : ℚ) ≤ (U : ℚ) := by
+    have : toSatoshis (totalUnits bs) ≤ U := toSatoshis_mono hadm.total
+    exact_mod_cast this
+  have hkNq : (totalFills bs : ℚ) ≤ (maxMatches o : ℚ) := by exact_mod_cast hkN
+  have hs0 : (0 : ℚ) ≤ (sigma o : ℚ) := by positivity
+  have hXY : (toSatoshis (totalUnits bs) : ℚ) + (totalFills bs : ℚ) * (sigma o : ℚ) ≤
+      (U : ℚ) + (maxMatches o : ℚ) * (sigma o : ℚ) := by
+    have := mul_le_mul_of_nonneg_right hkNq hs0; linarith
+  have hfin := bid_final c (eRate fs) ((o.selfChanBalance : ℚ) + fs.baseFee + fee1)
+    ((toSatoshis (totalUnits bs) : ℚ) + (totalFills bs : ℚ) * (sigma o : ℚ))
+    ((U : ℚ) + (maxMatches o : ℚ) * (sigma o : ℚ)) (totalFills bs) (maxMatches o)
+    ((totalDebit fs o bs : Int) : ℚ) (R : ℚ) hc0 (eRate_nonneg fs) hXY
+    (add_nonneg (Nat.cast_nonneg _) (mul_nonneg (Nat.cast_nonneg _) (Nat.cast_nonneg _))) hkNq hG hcY
+    (by linarith) (by linarith)
+  have : ((totalDebit fs o bs : Int) : ℚ) < ((R + 2 * (totalFills bs : Int) + 1 : Int) : ℚ) := by
+    push_cast; linarith
+  have : totalDebit fs o bs < R + 2 * (totalFills bs : Int) + 1 := by exact_mod_cast this
+  omega
+
 end Pool.C11
